@@ -104,6 +104,15 @@ class Check(PropertyCheck):
                     ofr = valid_frame(inst, other, seq, rng, "lo")
                     cases.append({"v": v, "pending": pname, "data": (ofr[:hdr_len] + fr[hdr_len:]).hex(), "kind": "idsub"})
                     cases.append({"v": v, "pending": pname, "data": (bytes([rng.randrange(256)]) + fr[1:]).hex(), "kind": "seqsub"})
+            # EmberKeyStruct's deserialisation quirk: a remainder of exactly 24 bytes is padded (IPad in the model)
+            for name in ("getKeyTableEntry", "getKey"):
+                if name in cls.COMMANDS:
+                    full = valid_frame(inst, name, 0, rng, "rand")
+                    hdr_len = 3 if v == 4 else 5
+                    for tail_len in (23, 24, 25):
+                        fr = full[:hdr_len] + b"\x00" + bytes(rng.randrange(256) for _ in range(tail_len))
+                        for pname in (None, name):
+                            cases.append({"v": v, "pending": pname, "data": fr.hex(), "kind": "keystruct"})
             nrand = 300 if tier == "quick" else 8000
             for _ in range(nrand):
                 n = rng.choice([0, 1, 2, 3, 4, 5, 6, 8, 12, 20, 40])
